@@ -538,6 +538,38 @@ def run_register(ctx, K):
                            Ctx.base + c.facts + c.pc + canon_facts(c) + [z3.Not(z3.Concat(SymStr.lift(spec.name), z3.StringVal("-v"), STR(spec.version.t)) == sid.t)])
                     rec.const(f"new_entry_keeps_entry_point_and_kwargs[{len(outcomes)}]", spec.entry_point == ep and spec.kwargs is kw)
                 outcomes.append("ret")
+        # ---- ids whose version is written with a leading zero ("Fake-v01"): they denote the same (name, version) as the canonical id and
+        # registering one while the canonical id exists is a duplicate.  Assumed contract instance of int(): int("0" + d) == int(d).
+        def pad_facts(c):
+            out, canon = [], []
+            for f in c.facts:
+                names = _find_fresh(f, "name")
+                for t in _find_fresh(f, "vers"):
+                    cv = z3.String("canon_" + str(t))
+                    out += [t == z3.Concat(z3.StringVal("0"), cv), z3.InRe(cv, DIG), STR(INT(cv)) == cv, INT(t) == INT(cv)]
+                    for n_ in names:
+                        canon.append(z3.Concat(n_, z3.StringVal("-v"), cv))
+            return out, canon
+        for j, (c, out) in enumerate(paths):
+            pf, canon = pad_facts(c)
+            if not canon:
+                continue
+            base = Ctx.base + c.facts + c.pc + pf
+            if solve(base)[0] == "unsat":
+                continue   # this path cannot be taken by a zero-padded id
+            dup = z3.Or(*[cid == k for cid in canon for k in keys]) if keys else z3.BoolVal(False)
+            def wit_pad(m):
+                ids, new = [_mstr(m, k) for k in keys], _mstr(m, sid.t)
+                got = _native_register(ids, new)
+                return {"registered_ids": ids, "then_register": new, "native": got,
+                        "confirmed": bool(got) and (got.get("accepted_a_duplicate") or got.get("spec_id_differs_from_key"))}
+            if out[0] == "ret":
+                rec.ob(f"zero_padded_version.accepted_only_if_the_canonical_id_is_not_registered[{j}]", base + [dup], witness=wit_pad)
+                reg = out[1]
+                if reg.writes:
+                    wk, spec = reg.writes[0]
+                    rec.ob(f"zero_padded_version.new_entry_is_stored_under_the_canonical_id[{j}]", base + [z3.And(*[z3.Not(wk == cid) for cid in canon])], witness=wit_pad)
+                    rec.ob(f"zero_padded_version.new_entry_spec_id_is_its_key[{j}]", base + [z3.Not(SymStr.lift(spec.id) == wk)], witness=wit_pad)
         rec.const("some_path_registers_and_some_path_refuses", "ret" in outcomes and ("exc" in outcomes))
         rec.ob("canary.registration_never_succeeds", Ctx.base + [z3.Or(*[z3.And(*(c.facts + c.pc)) for c, out in paths if out[0] == "ret"] or [z3.BoolVal(False)])])
     finally:
@@ -677,6 +709,33 @@ def run_make(ctx, K):
         R.load = real_load
         _restore_module_dicts(R, saved_dicts)
         _uninstall(R, real_re, real_registry)
+
+
+def _native_register(ids, new):
+    """replay on the REAL module (fresh interpreter): register the model's ids, then `new`; report what happened"""
+    import subprocess
+    import sys
+    import json as _json
+    code = ("import json, jumanji.registration as R\n"
+            "R._REGISTRY.clear()\n"
+            + "".join(f"R.register({i!r}, entry_point='jumanji.testing.fakes:FakeEnvironment', kwargs={{'time_limit': {3 + n}}})\n" for n, i in enumerate(ids))
+            + "before = {k: (v.id, v.kwargs) for k, v in R._REGISTRY.items()}\n"
+            + "try:\n"
+            + f"    R.register({new!r}, entry_point='jumanji.testing.fakes:FakeMultiEnvironment', kwargs={{'time_limit': 9}})\n"
+            + "    raised = None\n"
+            + "except Exception as e:\n"
+            + "    raised = type(e).__name__\n"
+            + "after = {k: (v.id, v.kwargs) for k, v in R._REGISTRY.items()}\n"
+            + "n, v = R.parse_env_id(" + repr(new) + ") if raised is None or True else (None, None)\n"
+            + "canon = R.get_env_id(n, v)\n"
+            + "print(json.dumps({'raised': raised, 'canonical_id': canon, 'canonical_id_was_registered': canon in before,\n"
+            + "  'accepted_a_duplicate': raised is None and canon in before, 'replaced_entry': any(before[k] != after.get(k) for k in before),\n"
+            + "  'spec_id_differs_from_key': any(k != v[0] for k, v in after.items())}))\n")
+    try:
+        out = subprocess.run([sys.executable, "-c", code], capture_output=True, text=True, timeout=120, env=dict(os.environ))
+        return _json.loads(out.stdout.strip().splitlines()[-1])
+    except Exception:
+        return None
 
 
 def _native_two_makes(ids, first, second):
